@@ -30,8 +30,12 @@ inductive Pt where
   | prim (v : Var) (leaf j : Nat) (gen : Row) : Pt
   /-- stored datum number `j` of data sampler `id` (not generated for any parameter row) -/
   | datum (v : Var) (id j : Nat) : Pt
-  /-- `p` moved by motion `id` (Translate / Rotate) evaluated at the parameter row `gen` -/
-  | moved (id : Nat) (gen : Row) (p : Pt) : Pt
+  /-- marker in front of the cells of a moved point: the following cells of the variables `vs` were moved by
+      motion `id` (Translate / Rotate) evaluated at the parameter row `gen`.  The cells themselves stay the cells of
+      the UNMOVED point: a moved point belongs to the moved domain iff its pre-image belongs to the inner domain
+      (checked on the real code for a Translate of a dependent ProductDomain), so "the first factor was evaluated at
+      the partner point" refers to the unmoved partner point.  A marker occupies no column. -/
+  | marker (id : Nat) (vs : List Var) (gen : Row) : Pt
 end
 
 deriving instance DecidableEq for Row, Pt
@@ -43,11 +47,12 @@ mutual
 def Row.vars : Row → List Var
   | .nil => []
   | .ext _ vs => vs
-  | .cons p r => p.var :: r.vars
-def Pt.var : Pt → Var
-  | .prim v _ _ _ => v
-  | .datum v _ _ => v
-  | .moved _ _ p => p.var
+  | .cons p r => p.cols ++ r.vars
+/-- the columns (variables) a cell occupies -/
+def Pt.cols : Pt → List Var
+  | .prim v _ _ _ => [v]
+  | .datum v _ _ => [v]
+  | .marker _ _ _ => []
 end
 
 /-- the sampled cells of a row -/
@@ -75,7 +80,7 @@ def Row.paired : Row → Bool
 def Pt.pairedTo (ctx : Row) : Pt → Bool
   | .prim _ _ _ g => g.sub ctx
   | .datum _ _ _ => true
-  | .moved _ g p => g.sub ctx && p.pairedTo ctx
+  | .marker _ _ g => g.sub ctx
 end
 
 /-- a sampled point of a domain = its cells in the order of the domain's space -/
@@ -84,15 +89,34 @@ abbrev Point := List Pt
 /-- `points.join(params)` for one row -/
 def joinPt (cells : Point) (ρ : Row) : Row := cells.foldr Row.cons ρ
 
-/-- the cells of a row whose variable is not one of `pv` -/
+/-- the variables a cell belongs to -/
+def Pt.tagVars : Pt → List Var
+  | .prim v _ _ _ => [v]
+  | .datum v _ _ => [v]
+  | .marker _ vs _ => vs
+
+/-- the cell belongs to the sampled points, not to the parameter columns `pv` -/
+def Pt.isOwn (pv : List Var) (p : Pt) : Bool := p.tagVars.all (· ∉ pv)
+
+/-- the cells of a row that do not belong to the parameter variables `pv` -/
 def Row.own (pv : List Var) : Row → Point
-  | .cons p r => if p.var ∈ pv then r.own pv else p :: r.own pv
+  | .cons p r => if p.isOwn pv then p :: r.own pv else r.own pv
   | _ => []
 
 /-- the row without the cells `Row.own` takes -/
 def Row.rest (pv : List Var) : Row → Row
-  | .cons p r => if p.var ∈ pv then .cons p (r.rest pv) else r.rest pv
+  | .cons p r => if p.isOwn pv then r.rest pv else .cons p (r.rest pv)
   | r => r
+
+/-- no cell of the row is an own cell (a parameter row over the variables `pv`) -/
+def Row.pure (pv : List Var) : Row → Bool
+  | .cons p r => !p.isOwn pv && r.pure pv
+  | _ => true
+
+/-- own cells first, then a pure parameter row -/
+def Row.sorted (pv : List Var) : Row → Bool
+  | .cons p r => if p.isOwn pv then r.sorted pv else (Row.cons p r).pure pv
+  | _ => true
 
 /-- the variables of a parameter batch (`params.space`; empty for `Points.empty()`) -/
 def paramVars : List Row → List Var
@@ -183,7 +207,7 @@ def Dom.sample (o : Nat → Bool) : Dom → Nat → List Row → List Point
       -- n = len(original_points) // max(len(params), 1); _repeat_params(n, params)
       let m := pts.length / max ps.length 1
       let reps := if ps.isEmpty then List.replicate pts.length Row.nil else repeatParams ps m
-      List.zipWith (fun (p : Point) ρ => p.map (Pt.moved id ρ)) pts reps
+      List.zipWith (fun (p : Point) ρ => Pt.marker id d.vars ρ :: p) pts reps
 
 /-- as `Translate/Rotate.sample_random_uniform` were coded in the pinned snapshot:
     `n = int(len(points) / (k+1))`, parameters repeated `n+1` times ("round up n") -/
@@ -191,8 +215,8 @@ def moveSampleOld (o : Nat → Bool) (d : Dom) (id : Nat) (n : Nat) (ps : List R
   let pts := d.sample o n ps
   let m := pts.length / (ps.length + 1)
   let reps := repeatParams ps (m + 1)
-  if ps.isEmpty then .ok (pts.map fun p => p.map (Pt.moved id .nil))
-  else if reps.length = pts.length then .ok (List.zipWith (fun (p : Point) ρ => p.map (Pt.moved id ρ)) pts reps)
+  if ps.isEmpty then .ok (pts.map fun p => Pt.marker id d.vars .nil :: p)
+  else if reps.length = pts.length then .ok (List.zipWith (fun (p : Point) ρ => Pt.marker id d.vars ρ :: p) pts reps)
   else .error .shape
 
 /-- the `n = 1` path of cut / intersection in the pinned snapshot: `zeros((len(params), dim))` -/
